@@ -2,19 +2,26 @@ package wpool
 
 import (
 	"log/slog"
+
+	"github.com/glebziz/fs_db/internal/verifhook"
 )
 
 func (p *Pool) Stop() {
+	verifhook.At("wpool.stop.enter")
 	defer p.runM.Unlock()
 	if p.runM.TryLock() {
+		verifhook.At("wpool.stop.notRunning")
 		slog.Warn("worker pool already stopped")
 		return
 	}
 
 	p.cancel()
+	verifhook.At("wpool.stop.afterCancel")
 	p.sendWg.Wait()
+	verifhook.At("wpool.stop.afterSendWait")
 	p.runWg.Wait()
 
+	verifhook.At("wpool.stop.beforeClose")
 	close(p.ch)
 	p.el.Clear()
 }
